@@ -120,6 +120,15 @@ def Outdated (g : Graph V) (i : Nat) : Bool := outdated (i+1) g i
 def Spec (g : Graph V) (i : Nat) : V := evalSpec (i+1) g i
 def Eval (g : Graph V) (i : Nat) : Graph V × Log := eval (i+1) g i
 
+/-- executable dependency cone: `k` is a reflexive-transitive dependency of `j`
+    (`= Reach g j k` under `WF` with fuel `> j`, lemma `inCone_iff`) -/
+def inCone : Nat → Graph V → Nat → Nat → Bool
+  | 0, _, j, k => j == k
+  | f+1, g, j, k => j == k ||
+    match g j with
+    | .struct s => s.deps.any fun d => inCone f g d k
+    | .param _ _ => false
+
 /-! ### operations of the API -/
 
 inductive Op (V : Type) where
